@@ -19,7 +19,16 @@ import (
 
 // ---- probe struct family: every supported kind and tag combination -------------------
 
+// defined types over the supported kinds: the walkers go by reflect.Kind
+type ProbeWord string
+type ProbeLevel int
+type ProbeTags []string
+
 type ProbeBasic struct {
+	Word    ProbeWord
+	Words   []ProbeWord `delim:","`
+	Level   ProbeLevel
+	Tags    ProbeTags `delim:" "`
 	Name    string
 	Renamed string `control:"X-Renamed"`
 	Count   int
@@ -397,9 +406,17 @@ func encodeSequenceGrouped(a []string, grouping int) (string, error) {
 				err = flush(recs[1:], true)
 			}
 		}
-	default:
+	case 3:
 		for i := 0; i < len(recs) && err == nil; i += 2 {
 			err = flush(recs[i:min(i+2, len(recs))], true)
+		}
+	default:
+		// empty slices (and nil ones) between the calls write nothing and change nothing
+		err = flush(nil, true)
+		for i := 0; i < len(recs) && err == nil; i++ {
+			if err = flush(recs[i:i+1], i%2 == 0); err == nil {
+				err = flush(recs[:0], true)
+			}
 		}
 	}
 	return buf.String(), err
@@ -575,7 +592,7 @@ var codecImpl = map[string]core.Adapter{
 		if err != nil {
 			return "FAIL encode: " + err.Error()
 		}
-		for grouping := 1; grouping <= 3; grouping++ {
+		for grouping := 1; grouping <= 4; grouping++ {
 			if other, err := encodeSequenceGrouped(a, grouping); err != nil || other != text {
 				return fmt.Sprintf("FAIL the same records written as slices (grouping %d) give %q (%v), one by one %q", grouping, other, err, text)
 			}
